@@ -126,11 +126,9 @@ impl Settings {
 /// # async fn example() {
 /// fn test_lang (header: &str) -> &'static str {
 ///     let mut langs = utils::list_header(header);
-///     langs.sort_by(|l1, l2| {
-///         l2.quality
-///             .partial_cmp(&l1.quality)
-///             .unwrap_or(cmp::Ordering::Equal)
-///     });
+///     // The weights come from the client and may be NaN (`q=nan`):
+///     // `total_cmp` is an order for every value, `partial_cmp` isn't.
+///     langs.sort_by(|l1, l2| l2.quality.total_cmp(&l1.quality));
 ///
 ///     for lang in &langs {
 ///         // We take the first language; the values are sorted by quality, so the highest will be
